@@ -210,15 +210,36 @@ def _submit_race(n_workers, n_pending, k, flavour):
             hook("before pending_work_items.clear()")
             return dict.clear(self)
 
+    class Conn:
+        """multiprocessing Connection: using it after close() raises OSError('handle is closed')."""
+
+        def __init__(self):
+            self.closed = False
+
+        def close(self):
+            self.closed = True
+
+        def send_bytes(self, b):
+            if self.closed:
+                raise OSError("handle is closed")
+
+        def poll(self, *a):
+            if self.closed:
+                raise OSError("handle is closed")
+            return False
+    wake = pe._ThreadWakeup.__new__(pe._ThreadWakeup)          # the real class on stand-in connections
+    wake._closed, wake._reader, wake._writer = False, Conn(), Conn()
     procs = {100 + i: Proc(i, i != 0, None if i != 0 else -9) for i in range(n_workers)}
     futures = [Fut() for _ in range(n_pending)]
     pending = Pending((i, types.SimpleNamespace(future=fu)) for i, fu in enumerate(futures))
     ex = types.SimpleNamespace(_flags=flags, _pending_work_items=pending, _work_ids=queue.Queue(), _queue_count=n_pending,
-                               _executor_manager_thread_wakeup=types.SimpleNamespace(wakeup=lambda: None),
+                               _executor_manager_thread_wakeup=wake, _executor_manager_thread=None,
+                               _shutdown_lock=flags.shutdown_lock, _call_queue=None, _result_queue=None,
+                               _processes_management_lock=None,
                                _ensure_executor_running=lambda: None)
     me = types.SimpleNamespace(
         result_queue=types.SimpleNamespace(close=lambda: None),
-        thread_wakeup=types.SimpleNamespace(clear=lambda: None, close=lambda: None),
+        thread_wakeup=wake,
         processes=procs, pending_work_items=pending, executor_flags=flags,
         shutdown_lock=threading.Lock(), processes_management_lock=threading.Lock(),
         call_queue=types.SimpleNamespace(close=lambda: None, join_thread=lambda: None, put_nowait=lambda x: None,
@@ -248,9 +269,19 @@ def _submit_race(n_workers, n_pending, k, flavour):
             flags.flag_as_shutting_down()
         hook("after terminate_broken returned")
         hook("later")
+        # what get_reusable_executor / LokyBackend.terminate do with the executor they still hold
+        try:
+            pe.ProcessPoolExecutor.shutdown(ex, wait=True, kill_workers=True)
+        except BaseException as e:              # noqa
+            outcome["shutdown_raised"] = e
     finally:
         pe.kill_process_tree, = saved
         lu.time = saved_sleep
+    if "shutdown_raised" in outcome:
+        e = outcome["shutdown_raised"]
+        H.note("shutdown() of the executor after the death was handled raised %s: %s (every later call would fail)" % (
+            type(e).__name__, e))
+        return False
     if "at" not in outcome:
         return True                  # hook index beyond this run's hooks
     where = "submit %s (%d workers, %d pending)" % (outcome["at"], n_workers, n_pending)
@@ -287,6 +318,97 @@ def ob_submit_race(n_pending: int, k: int, flavour: int) -> bool:
     npend, kk, fl = H.select(n_pending, 0, 3), H.select(k, 0, 12), H.select(flavour, 0, 1)
     with H.native():
         return H.verdict(_submit_race(nw, npend, kk, fl))
+
+
+def _startup(n_workers, k, already):
+    """The real submit() + _ensure_executor_running() on a stub executor (stub process spawning, stub thread start); the
+    manager thread, once started, may get the CPU at hook #k and run one iteration of its loop head: it consumes the
+    pending wake-up and snapshots the worker sentinels it is going to wait on.  When submit() has returned, either a
+    wake-up is still pending or the manager's wait set covers every worker - otherwise a death goes unnoticed."""
+    import queue
+    import joblib.externals.loky.process_executor as pe
+    st = {"started": False, "wake_pending": False, "waiting_on": None, "n": 0}
+    procs = {}
+
+    def manager_iteration():
+        if st["started"] and st["waiting_on"] is None:
+            # wait_result_broken_or_wakeup: the wake-up reader is ready -> clear it, go round, wait again on the
+            # sentinels known *now*
+            st["wake_pending"] = False
+            st["waiting_on"] = {p.sentinel for p in procs.values()}
+
+    def hook():
+        if st["n"] == k:
+            manager_iteration()
+        st["n"] += 1
+
+    class Wake:
+        def wakeup(self):
+            if st["waiting_on"] is not None:
+                st["waiting_on"] = None          # a waiting manager wakes up and re-reads the process table
+                st["wake_pending"] = False
+                if st["started"]:
+                    st["waiting_on"] = {p.sentinel for p in procs.values()}
+            else:
+                st["wake_pending"] = True
+            hook()
+
+    class Lock:
+        def __enter__(self):
+            hook()
+
+        def __exit__(self, *a):
+            hook()
+            return False
+
+    def adjust():
+        hook()
+        while len(procs) < n_workers:
+            procs[100 + len(procs)] = Proc(len(procs), True, None)
+            hook()
+
+    def start_thread():
+        hook()
+        st["started"] = True
+        hook()
+    for i in range(already):
+        procs[100 + i] = Proc(i, True, None)
+    flags = pe._ExecutorFlags(threading.Lock())
+    ex = types.SimpleNamespace(_flags=flags, _pending_work_items={}, _work_ids=queue.Queue(), _queue_count=0,
+                               _executor_manager_thread_wakeup=Wake(), _processes=procs, _max_workers=n_workers,
+                               _processes_management_lock=Lock(), _adjust_process_count=adjust,
+                               _start_executor_manager_thread=start_thread)
+    ex._ensure_executor_running = types.MethodType(pe.ProcessPoolExecutor._ensure_executor_running, ex)
+    pe.ProcessPoolExecutor.submit(ex, lambda: 1)
+    hook()
+    manager_iteration() if k >= st["n"] else None       # it runs at the latest now
+    want = {p.sentinel for p in procs.values()}
+    if not st["started"]:
+        H.note("the manager thread was never started")
+        return False
+    if len(procs) != n_workers:
+        H.note("%d workers spawned, %d requested" % (len(procs), n_workers))
+        return False
+    if st["waiting_on"] is not None and not st["wake_pending"] and not want <= st["waiting_on"]:
+        H.note("after submit() returned the manager thread waits on %d of the %d worker sentinels and no wake-up is "
+               "pending (it ran at hook %d): the death of the other workers goes unnoticed" % (
+                   len(st["waiting_on"] & want), len(want), k))
+        return False
+    return True
+
+
+def ob_startup(k: int, already: int) -> bool:
+    """
+    pre: 0 <= k <= 14
+    pre: 0 <= already <= 3
+    post: _
+    """
+    H.enter()
+    nw = H.P("n_workers")
+    H.assume(already <= nw)
+    kk, al = H.select(k, 0, 14), H.select(already, 0, 3)
+    with H.native():
+        return H.verdict(_startup(nw, kk, al))
 
 
 def ob_exitcode(e: int) -> bool:
@@ -485,6 +607,10 @@ def obligations(tier, seed):
                     "timeout": 300, "bounds": "one submit() by the calling thread at any statement boundary of terminate_broken "
                                               "(%d workers, 0..3 pending items): it raises the TerminatedWorkerError or its "
                                               "future is failed with it; a shut down executor raises ShutdownExecutorError" % nw})
+    for nw in (1, 3):
+        obs.append({"name": "startup/%d_workers" % nw, "fn": "ob_startup", "mode": "S", "params": {"n_workers": nw},
+                    "timeout": 120, "bounds": "first submit() on an executor with 0..%d of its %d workers already running: the "
+                                              "freshly started manager thread takes the CPU at any statement boundary" % (nw, nw)})
     obs.append({"name": "exitcode", "fn": "ob_exitcode", "mode": "T", "timeout": 300,
                 "bounds": "exit code symbolic in [-66, 12] or [254, 256]"})
     obs.append({"name": "reuse", "fn": "ob_reuse", "mode": "S", "timeout": 300,
